@@ -24,6 +24,7 @@ import (
 //
 // Props/C15.lean identifies the table with what the model assumes (each goroutine writes its
 // own slot / its own role and an error accumulator of which only nil-ness is used).
+// The same file carries the facts of pruningFacts (below): which roles a load keeps.
 func genFacts(repo string) (string, error) {
 	type fact struct {
 		fn     string
@@ -175,6 +176,150 @@ func genFacts(repo string) (string, error) {
 		}
 		b.WriteString("\n")
 	}
-	b.WriteString("]\n\nend Gen\n")
+	b.WriteString("]\n\n")
+	pf, err := pruningFacts(repo)
+	if err != nil {
+		return "", err
+	}
+	b.WriteString(pf)
+	b.WriteString("end Gen\n")
+	return b.String(), nil
+}
+
+// pruningFacts reads, with go/ast, the spots that decide which roles a load keeps:
+//
+//	loadIteratorIsEnabled   what iteratorRole.IsEnabled() returns for an iterator that exists
+//	                        (source text of the result of its last return statement)
+//	loadDisabledRoleGuards  MakeDisabledRoleCallback: the conditions, outermost first, under which
+//	                        the stage's error is replaced by a RoleDisabledError
+//	loadChildFilters        aggregatorRole / iteratorRole ProcessTemplates: condition under which a
+//	                        processed child stays in Roles
+//	loadSelfDisable         aggregatorRole.ProcessTemplates: condition under which the aggregator
+//	                        sets its own Enabled to "false"
+//
+// Props/C15.lean reads the first two as the model's configuration (`C15_pruning_is_code`) and
+// pins the other two to what `proc` / `aggOut` assume.
+func pruningFacts(repo string) (string, error) {
+	fset := token.NewFileSet()
+	src := func(n ast.Node) string {
+		var b bytes.Buffer
+		printer.Fprint(&b, fset, n)
+		return strings.Join(strings.Fields(b.String()), " ")
+	}
+	parse := func(file string) (*ast.File, error) {
+		return parser.ParseFile(fset, filepath.Join(repo, "core/workflow", file), nil, 0)
+	}
+	recvOf := func(fd *ast.FuncDecl) string {
+		if fd.Recv == nil || len(fd.Recv.List) == 0 {
+			return ""
+		}
+		return strings.TrimPrefix(src(fd.Recv.List[0].Type), "*")
+	}
+	// condStack walks body and calls hit(stmt, conds) for every statement, conds = the
+	// conditions of the enclosing if statements (then-branches only), outermost first
+	var walk func(n ast.Stmt, conds []string, hit func(ast.Stmt, []string))
+	walk = func(n ast.Stmt, conds []string, hit func(ast.Stmt, []string)) {
+		if n == nil {
+			return
+		}
+		hit(n, conds)
+		switch s := n.(type) {
+		case *ast.BlockStmt:
+			for _, c := range s.List {
+				walk(c, conds, hit)
+			}
+		case *ast.IfStmt:
+			walk(s.Body, append(append([]string{}, conds...), src(s.Cond)), hit)
+			walk(s.Else, append(append([]string{}, conds...), "!("+src(s.Cond)+")"), hit)
+		case *ast.ForStmt:
+			walk(s.Body, conds, hit)
+		case *ast.RangeStmt:
+			walk(s.Body, conds, hit)
+		case *ast.ReturnStmt:
+			// a callback returned as a function literal: look inside
+			for _, r := range s.Results {
+				if fl, ok := r.(*ast.FuncLit); ok {
+					walk(fl.Body, conds, hit)
+				}
+			}
+		}
+	}
+
+	iterIsEnabled := ""
+	var guards []string
+	filters := map[string]string{}
+	selfDisable := ""
+
+	fi, err := parse("iteratorrole.go")
+	if err != nil {
+		return "", err
+	}
+	fa, err := parse("aggregatorrole.go")
+	if err != nil {
+		return "", err
+	}
+	fu, err := parse("roleutils.go")
+	if err != nil {
+		return "", err
+	}
+	for _, f := range []*ast.File{fi, fa, fu} {
+		for _, d := range f.Decls {
+			fd, ok := d.(*ast.FuncDecl)
+			if !ok || fd.Body == nil {
+				continue
+			}
+			recv := recvOf(fd)
+			switch {
+			case recv == "iteratorRole" && fd.Name.Name == "IsEnabled":
+				walk(fd.Body, nil, func(s ast.Stmt, _ []string) {
+					if r, ok := s.(*ast.ReturnStmt); ok && len(r.Results) == 1 {
+						iterIsEnabled = src(r.Results[0]) // the last one wins
+					}
+				})
+			case recv == "" && fd.Name.Name == "MakeDisabledRoleCallback":
+				walk(fd.Body, nil, func(s ast.Stmt, conds []string) {
+					r, ok := s.(*ast.ReturnStmt)
+					if !ok || len(r.Results) != 1 {
+						return
+					}
+					t := src(r.Results[0])
+					if t == "rde" || strings.Contains(t, "RoleDisabledError") {
+						guards = append([]string{}, conds...)
+					}
+				})
+			case (recv == "aggregatorRole" || recv == "iteratorRole") && fd.Name.Name == "ProcessTemplates":
+				walk(fd.Body, nil, func(s ast.Stmt, conds []string) {
+					a, ok := s.(*ast.AssignStmt)
+					if !ok || len(a.Lhs) != 1 || len(a.Rhs) != 1 {
+						return
+					}
+					lhs, rhs := src(a.Lhs[0]), src(a.Rhs[0])
+					if lhs == "enabledRoles" && strings.HasPrefix(rhs, "append(enabledRoles,") {
+						filters[recv] = strings.Join(conds, " && ")
+					}
+					if recv == "aggregatorRole" && strings.HasSuffix(lhs, ".Enabled") && rhs == `"false"` {
+						selfDisable = strings.Join(conds, " && ")
+					}
+				})
+			}
+		}
+	}
+	q := func(ss []string) string {
+		qs := make([]string, 0, len(ss))
+		for _, s := range ss {
+			qs = append(qs, fmt.Sprintf("%q", s))
+		}
+		return "[" + strings.Join(qs, ", ") + "]"
+	}
+	var b strings.Builder
+	b.WriteString("/-- `iteratorRole.IsEnabled()`: what it returns for an iterator that exists (source text). -/\n")
+	fmt.Fprintf(&b, "def loadIteratorIsEnabled : String := %q\n\n", iterIsEnabled)
+	b.WriteString("/-- `MakeDisabledRoleCallback`: conditions (outermost first) under which the stage's error is replaced by\n    `RoleDisabledError`. -/\n")
+	fmt.Fprintf(&b, "def loadDisabledRoleGuards : List String := %s\n\n", q(guards))
+	b.WriteString("/-- condition under which a processed child stays in `Roles` (aggregatorRole, iteratorRole `ProcessTemplates`). -/\n")
+	fmt.Fprintf(&b, "def loadChildFilters : List (String × String) := [(\"aggregatorRole\", %q), (\"iteratorRole\", %q)]\n\n",
+		filters["aggregatorRole"], filters["iteratorRole"])
+	b.WriteString("/-- condition under which an aggregator sets its own `Enabled` to \"false\" after its children. -/\n")
+	fmt.Fprintf(&b, "def loadSelfDisable : String := %q\n\n", selfDisable)
 	return b.String(), nil
 }
